@@ -144,6 +144,8 @@ def _extra_block(e, bt):
         return _block(e, 5, struct.pack(e + "III", 0, 0, 0))
     if bt == "custom":   # custom block, copyable
         return _block(e, 0x00000BAD, struct.pack(e + "I", 32473) + b"verif-data\x00\x00")
+    if bt == "bigcustom":   # a custom block far larger than any packet or snap length
+        return _block(e, 0x00000BAD, struct.pack(e + "I", 32473) + bytes(300000))
     if bt == "idb2":     # a second interface description (different resolution), must not affect interface 0
         return _block(e, 1, struct.pack(e + "HHI", 1, 0, 65535) + _opt(e, 9, bytes([9])) + struct.pack(e + "HH", 0, 0))
     raise KeyError(bt)
